@@ -52,7 +52,9 @@ func main() {
 			tier = "quick"
 		}
 		seed, _ := strconv.Atoi(os.Getenv("VERIF_SEED"))
-		os.Exit(runCheck(os.Args[2], tier, seed))
+		rc := runCheck(os.Args[2], tier, seed)
+		cleanupSmtTmp()
+		os.Exit(rc)
 	case "list":
 		w := loadWorld()
 		var keys []string
